@@ -120,3 +120,18 @@ reg('C05',
     'excluded from the enumerate clause (property text). Two exotic inputs are recorded as known findings.',
     'bounded exhaustive enumeration of ring systems x double-bond matchings x renumberings on the real implementation, relational oracle',
     'DESIGN.md s5 C05')
+
+reg('C10',
+    'Field-exhaustive enumeration of the format on the pyx model: every atom number 1..4095; the full products inside each shared byte (stereo kind x '
+    'isotope code 0..31 x atomic number; hydrogens 0..6/None x charge -4..4 x radical); 0..15 neighbours; every bond-order assignment {1,2,3,4,8}^b '
+    'for b<=5 and every one-different pattern for b=6..17 (all phases of the 3-bit packing); all 65 536 half-float bit patterns through the unpacker '
+    'and value/midpoint/near-next through the packer; D(<=5,k), stereo families, polyenes/allenes and the corpus; reactions with (reactants, reagents, '
+    'products) in {0..3}^3 and 255 per role incl. empty sides; legacy version-0 packs. Each case: bytes equal to an independent bit-string writer of the '
+    'published layout, unpack(pack(m)) equal on raw state (numbers, dict and neighbour order, labels, stereo, half-precision xy), pack_len, '
+    'chython.unpack dispatch, limits rejected. Conformance: the 4200 packs published in pach/SI.zip decode, re-encode to the identical bytes and '
+    'match the structure of their CSV row (traces_validated_against_impl).',
+    'Trusted: vf/pyxmodel (source-derived model with C integer semantics, poison for uninitialised memory, ModelLimit on out-of-range intermediates), '
+    'vf/oracle/pack_ref.py. No compiled extension exists in the sandbox; the published packs are the only traces of a real build. Role counts are '
+    '{0,1,2,3,255}; molecules near the 4095-atom / 64 KiB offset boundary are not explored.',
+    'model checking of a source-derived model (field-exhaustive enumeration) + conformance replay of published implementation traces',
+    'DESIGN.md s3.5, s5 C10')
